@@ -240,7 +240,7 @@ class gYearMonth(BuiltinType):
     @check_no_collection
     def xmlvalue(self, value):
         year, month, tzinfo = value
-        return "%04d-%02d%s" % (year, month, _unparse_timezone(tzinfo))
+        return "%s-%02d%s" % (_unparse_year(year), month, _unparse_timezone(tzinfo))
 
     @treat_whitespace("collapse")
     def pythonvalue(self, value):
@@ -269,7 +269,7 @@ class gYear(BuiltinType):
     @check_no_collection
     def xmlvalue(self, value):
         year, tzinfo = value
-        return "%04d%s" % (year, _unparse_timezone(tzinfo))
+        return "%s%s" % (_unparse_year(year), _unparse_timezone(tzinfo))
 
     @treat_whitespace("collapse")
     def pythonvalue(self, value):
@@ -555,6 +555,11 @@ def _float_xmlvalue(value):
         if math.isinf(value):
             return "INF" if value > 0 else "-INF"
     return str(value).upper()
+
+
+def _unparse_year(year):
+    """Return the year with at least four digits (sign excluded)"""
+    return "%s%04d" % ("-" if year < 0 else "", abs(year))
 
 
 def _parse_timezone(val):
